@@ -181,7 +181,7 @@ pub fn tok_layer(t: Tok, ix: &[usize], cur: Dims) -> L {
                     }
                 }
             };
-            L::Fb { layers, loops, inskips: false, outskips: false, acc: Acc::Add }
+            L::Fb { layers, loops, inskips: false, outskips: false, acc: Acc::Mean }
         }
     }
 }
